@@ -101,6 +101,10 @@ def populate(d, name, ext, main, other_ext, lower, longer, pyc, delta):
     if longer:
         touch(os.path.join(d, name + 'X' + ext), SRC_MTIME + 100)
         touch(os.path.join(d, 'X' + name + ext), SRC_MTIME + 100)
+    if pyc == 8:
+        # a side-by-side .pyc that exists but cannot be read (root ignores permission bits: a link to a file whose read() fails)
+        os.symlink('/proc/self/mem', os.path.join(d, name + '.pyc'))
+        return
     if pyc:
         # pyc: 1 time-stamped, same age as the .py; 2 foreign magic; 3 time-stamped, source one second older than ours;
         # 4 time-stamped, source one second newer; 5 hash-based (PEP 552 flags bit 0: the next 8 octets are a hash)
@@ -140,7 +144,7 @@ class FileSearchers(object):
                 for n in ('FOO-MIB', 'Foo')]
 
     def cases(self, block, tier):
-        pycs = (0, 1, 2, 3, 4, 5, 6, 7) if block['kind'] in ('py', 'pkg') else (0, 1, 2) if block['kind'].startswith('pkg') else (0,)
+        pycs = (0, 1, 2, 3, 4, 5, 6, 7, 8) if block['kind'] in ('py', 'pkg') else (0, 1, 2) if block['kind'].startswith('pkg') else (0,)
         for main, other, lower, longer, pyc, delta, rebuild in itertools.product(
                 (0, 1, 2), (0, 1), (0, 1), (0, 1), pycs, (-2, -1, 0, 1, 2), (0, 1)):
             yield {'kind': block['kind'], 'name': block['name'], 'main': main, 'other': other, 'lower': lower,
@@ -197,7 +201,7 @@ class FileSearchers(object):
             if got not in want:
                 feat = []
                 if case['pyc']:
-                    feat.append('legacy-pyc-%s' % {1: 'valid', 2: 'badmagic', 3: 'stale', 4: 'fresh', 5: 'hash-based', 6: 'cut-after-magic', 7: 'cut-inside-header'}[case['pyc']])
+                    feat.append('legacy-pyc-%s' % {1: 'valid', 2: 'badmagic', 3: 'stale', 4: 'fresh', 5: 'hash-based', 6: 'cut-after-magic', 7: 'cut-inside-header', 8: 'unreadable'}[case['pyc']])
                 if case['main'] == 2:
                     feat.append('directory')
                 feat.append('delta%+d' % case['delta'] if case['main'] == 1 else 'no-file')
